@@ -493,7 +493,11 @@ func (w *World) twinSignOut(base int, r *rand.Rand) ([]Line, error) {
 			resps[i] = world.Do(w.A.Handler, world.NewReq("POST", authHost, w.A.Path("sign_out")+"?"+qs[i].Encode(), nil, cs, ""))
 		}(k)
 		if k == 0 {
-			time.Sleep(time.Duration(r.Intn(2000)) * time.Microsecond)
+			if r.Intn(3) == 0 {
+				wg.Wait() // back to back
+			} else {
+				time.Sleep(time.Duration(r.Intn(2000)) * time.Microsecond)
+			}
 		}
 	}
 	wg.Wait()
